@@ -12,6 +12,22 @@ def main():
     rep, outs = R.run_contracts("C09", sel, ["DFA.append_after", "CaseNode._merge", "DFState.transition", "OptionalNode.convert", "LoopNode.convert"], ["dfa", "merge"], "all", TEXT,
                                 ["DFA.append_after", "CaseNode._merge", "DFState.transition", "OptionalNode.convert", "LoopNode.convert"])
     # proved parts: refusal logic of the case merge for all priorities (pyvc + z3); literal inner machines hand over only error transitions
+    # programs whose ambiguity is established independently (argued in their first line) must be refused, whatever order the joins are made in
+    from .. import common, progs
+    from ..common import Finding
+    from ..csem import tv
+    nm = common.load_nmfu()
+    must = [p_ for p_ in progs.corpus(include_fail=True) if "C09: must be refused" in p_["src"]]
+    for p_ in must:
+        for fl in (["-O0"], ["-O1"], ["-O3"]):
+            try:
+                tv.compile_program(nm, p_["src"], fl + ["-feof-support", "-fyield-support"], path=p_["name"])
+                rep.bounded_violation(Finding("C09", f"C09/must-refuse/{p_['name']}", f"must-refuse|{p_['name']}|{fl[0]}", f"{p_['name']} [{fl[0]}]: accepted although it is ambiguous: {p_['src'].splitlines()[0][3:]}",
+                                              replay={"program": p_["name"], "source": p_["src"], "flags": fl}, replayed=True))
+            except nm.NMFUError:
+                rep.bounded_count("ambiguous programs (argued independently) refused", 1)
+            except Exception as e:
+                rep.undecided_ob(f"C09/must-refuse/{p_['name']}", f"compiler internal error {type(e).__name__}")
     from . import merge_proofs, c09_proofs
     merge_proofs.run(rep, "C09")
     c09_proofs.run(rep, "C09")
